@@ -59,6 +59,16 @@ func SetDefaultNeighborConfigValues(n *Neighbor, pg *PeerGroup, g *Global) error
 	return setDefaultNeighborConfigValuesWithViper(nil, n, g, pg)
 }
 
+// validateHoldTime refuses a hold time the OPEN message cannot carry in its
+// 16-bit field or that RFC 4271 4.2 rules out: it is zero or at least three
+// seconds.
+func validateHoldTime(t float64) error {
+	if t == 0 || (t >= 3 && t <= 65535) {
+		return nil
+	}
+	return fmt.Errorf("invalid hold-time %v: must be 0 or in the range 3..65535", t)
+}
+
 func setDefaultNeighborConfigValuesWithViper(v *viper.Viper, n *Neighbor, g *Global, pg *PeerGroup) error {
 	if n == nil {
 		return fmt.Errorf("neighbor config is nil")
@@ -113,6 +123,9 @@ func setDefaultNeighborConfigValuesWithViper(v *viper.Viper, n *Neighbor, g *Glo
 	}
 	if !v.IsSet("neighbor.timers.config.hold-time") && n.Timers.Config.HoldTime == 0 {
 		n.Timers.Config.HoldTime = float64(DEFAULT_HOLDTIME)
+	}
+	if err := validateHoldTime(n.Timers.Config.HoldTime); err != nil {
+		return err
 	}
 	if !v.IsSet("neighbor.timers.config.keepalive-interval") && n.Timers.Config.KeepaliveInterval == 0 {
 		n.Timers.Config.KeepaliveInterval = n.Timers.Config.HoldTime / 3
